@@ -51,3 +51,16 @@ Example C04_nonvacuous :
   | None => False
   end.
 Proof. vm_compute. repeat split; reflexivity. Qed.
+
+(* ---- tie to the source: the function bodies below are re-translated from /repo on every run
+   (harness/cmd/gofunc -> theories/Generated/Funcs.v, interpreted by theories/GoIR.v) ---- *)
+From Cache Require Import TieGet.
+
+(* Failover.Get and FailoverOf.Get follow the model's single-thread path on every one of the 7680 combinations of
+   configuration and call-out outcomes: same reads, stale re-store, failure-cache hit, build (before or after the
+   return), warning, returned and published (value, error), election and release inside f.lock, key copy before a
+   background build — here: the release on every exit path *)
+Theorem C04_source_get_follows_model : forall i,
+  src_obs Failover.Legacy i = Some (model_obs Failover.Legacy i) /\ src_obs Failover.Generic i = Some (model_obs Failover.Generic i).
+Proof. intros i; split; [exact (tie_get_legacy i)|exact (tie_get_generic i)]. Qed.
+Print Assumptions C04_source_get_follows_model.
